@@ -444,6 +444,11 @@ def build_payloads(ctx, replay):
         items.append(sc_sinkhorn(rng, rng.choice(["cosine", "euclidean"]), sid, "wasserstein")); sid += 1
         items.append(sc_approx(rng, sid)); sid += 1
     payloads["sinkhorn+approx"] = items
+    # every other scenario runs on estimator objects with a past (an earlier fit on other data and earlier transforms
+    # with the same `vectors` object): see prehistory() in harness/impl/c08.py
+    for items_ in payloads.values():
+        for sc in items_:
+            sc["prehistory"] = (sc["id"] % 2 == 0)
     pipeline = [gen_pipeline(rng) for _ in range(60 if ctx.quick else 800)]
     if ctx.quick:
         payloads["euclidean"] = payloads["euclidean"] + pipeline      # one process less to compile the kernels
